@@ -22,19 +22,19 @@ import (
 )
 
 type vC12 struct {
-	s        *SnapshotSender
-	maxRecv  int
-	clock    int64
-	peers    []string
-	started  int      // tasks started (transferFn invoked / pending created)
-	taskPeer []string // ghost: peer of task k
-	ended    []bool
-	cancelled []bool  // ghost: task k was cancelled by a leave
-	release  []chan struct{}
-	fail     []bool
-	curTask  int
-	arrival  []string // ghost FIFO of enqueued peers
-	left     map[string]bool
+	s         *SnapshotSender
+	maxRecv   int
+	clock     int64
+	peers     []string
+	started   int      // tasks started (transferFn invoked / pending created)
+	taskPeer  []string // ghost: peer of task k
+	ended     []bool
+	cancelled []bool // ghost: task k was cancelled by a leave
+	release   []chan struct{}
+	fail      []bool
+	curTask   int
+	arrival   []string // ghost FIFO of enqueued peers
+	left      map[string]bool
 }
 
 func vNewC12(maxRecv int, peers []string) *vC12 {
